@@ -431,6 +431,9 @@ func (mw *msgWriter) writePart(part *Part, charset Charset) {
 	contentTransferEnc := part.encoding.String()
 
 	if mw.depth == 0 {
+		if part.description != "" {
+			mw.writeHeader(HeaderContentDescription, mw.encoder.Encode(mw.charset.String(), part.description))
+		}
 		mw.writeHeader(HeaderContentTransferEnc, contentTransferEnc)
 		mw.writeHeader(HeaderContentType, contentType)
 		mw.writeString(SingleNewLine)
